@@ -110,7 +110,7 @@ def g_cc_det(ctx):
 
 def g_cc_misc(ctx):
     F = _cc_facts(ctx)
-    return [rules_cc.rule_funcdom(F), rules_cc.rule_emit(F)]
+    return [rules_cc.rule_funcdom(F), rules_cc.rule_emit(F), rules_cc.rule_compall(F)]
 
 
 def g_rt_det(ctx):
@@ -171,7 +171,7 @@ RULE_GROUP = {
     "T-LOOP": "loop", "T-PENDING": "loop",
     "T-MOR": "mor", "T-AGE": "mor", "T-PRUNE-USE": "mor",
     "M-DIGEST": "cc_digest", "M-PANIC": "cc_diag", "M-LINES": "cc_diag", "M-LOCS": "cc_diag", "M-DET": "cc_det", "M-PAR": "cc_det", "M-DIRTAINT": "cc_det",
-    "M-FUNCDOM": "cc_misc", "M-EMIT": "cc_misc", "M-DETRT": "rt_det", "T-X": "x", "T-DET": "x", "T-TYPECHECK": "typecheck",
+    "M-FUNCDOM": "cc_misc", "M-EMIT": "cc_misc", "M-COMPALL": "cc_misc", "M-DETRT": "rt_det", "T-X": "x", "T-DET": "x", "T-TYPECHECK": "typecheck",
     "M-MAPFREE": "rt_mir", "M-FREEZE": "rt_mir", "M-UNSAFE": "rt_mir", "M-CBORDER": "rt_mir", "M-LEN": "rt_mir", "M-SIZE": "rt_mir",
     "M-BAL": "rt_mir", "M-SHARE": "rt_mir", "M-SYM": "rt_mir", "M-KAHN": "rt_mir", "M-UF": "rt_syn", "S-SIB": "rt_syn", "S-PRUNE": "rt_syn", "S-NAV": "rt_syn", "S-LEAF": "rt_syn", "S-SET": "rt_syn",
     "T-API": "api", "T-ALLOC": "api", "T-ENUM": "api",
@@ -208,9 +208,9 @@ PROPERTIES = {
     "C06": {"only_keys": {"T-CANON": ["T-CANON:canonicalize:uprooted-", "T-CANON:canonicalize:type-not-drained", "T-CANON:canonicalize:drained-not-processed", "T-CANON:canonicalize:unrecognised", "T-CANON:other:uprooted-shrunk"], "T-MOVE": ["T-MOVE:move:not-cleared", "T-MOVE:move:flag", "T-MOVE:move:clear-", "T-MOVE:move:unrecognised"]}, "rules": ["T-ALLOC", "M-FUNCDOM", "T-DIRTY", "T-MOVE", "T-CANON", "S-PRUNE", "S-SIB", "S-LEAF", "S-SET"], "level": "other"},
     "C09": {"rules": ["T-TYPECHECK", "T-ENV", "T-X", "T-DELTA"], "level": "translation_validation"},
     "C11": {"rules": ["M-PANIC", "M-LINES", "M-LOCS"], "level": "other"},
-    "C12": {"rules": ["M-DIGEST"], "level": "other"},
+    "C12": {"rules": ["M-DIGEST", "M-COMPALL"], "level": "other"},
     "C13": {"rules": ["M-DET", "M-PAR", "M-DIRTAINT"], "level": "other"},
-    "C19": {"rules": ["T-X", "M-EMIT", "M-DIRTAINT"], "level": "translation_validation"},
+    "C19": {"rules": ["T-X", "M-EMIT", "M-DIRTAINT", "M-COMPALL"], "level": "translation_validation"},
     "C20": {"rules": ["M-DETRT", "T-DET", "M-UNSAFE", "M-FREEZE"], "level": "other"},
     "C15": {"rules": ["T-ALLOC", "T-ENUM", "T-DELTA", "S-SIB", "S-LEAF", "S-NAV", "S-SET"], "level": "other"},
     "C07": {"rules": ["T-LOOP", "T-PENDING"], "level": "other"},
